@@ -696,8 +696,22 @@ func (env *Env) call(x *Expr) Val {
 			return boolVal("true")
 		}
 		return boolVal("false")
+	case "isfreshchan":
+		if env.callSite {
+			efail("isfreshchan() refers to the callee's own activation")
+		}
+		a := env.eval(x.Args[0])
+		for _, id := range st.freshChans {
+			if len(a.L) == 1 && a.L[0] == id {
+				return boolVal("true")
+			}
+		}
+		return boolVal("false")
 	case "isfresh":
 		// isfresh(p): p points to an object allocated by the current activation
+		if env.callSite {
+			efail("isfresh() refers to the callee's own activation")
+		}
 		a := env.eval(x.Args[0])
 		for _, o := range e.freshObjs {
 			if len(a.L) == 1 && a.L[0] == o {
